@@ -45,6 +45,59 @@ PROPS = {
     },
 }
 
+PROPS['C02'] = {
+    'title': 'Intersects/Contains/Within/coordinate_position agree with DE-9IM',
+    'level': 'proof',
+    'verus': ['c02_ring', 'c02_position'],
+    'kani': [
+        ('geo', 'c02.rs', r'^c02_k_(line_coord|rect_coord|tri_intersects_coord|tri_pos|tri_accumulates|line_line|rect_rect|contains_line_coord|contains_line_line|contains_rect|contains_tri_coord)$', 'complete', 'quick'),
+        ('geo', 'c02.rs', r'^c02_k_rect_line$', 'complete', 'thorough'),
+        ('geo', 'c02.rs', r'^c02_k_(linestring_pos|polygon_pos|multilinestring_pos)', 'bounded', 'quick'),
+        ('geo', 'c02.rs', r'^c02_k_multipolygon_pos_finding', 'bounded', 'thorough'),
+        ('geo', 'c02.rs', r'^c02_k_ring_pos_[13]$', 'bounded', 'quick'),
+        ('geo', 'c02.rs', r'^c02_k_ring_pos_4$', 'bounded', 'thorough'),
+    ],
+    'twins': {
+        'C02.V.coord_pos_relative_to_ring': r'^c02_k_ring_pos',
+        'C02.V.point_in_rect': r'^c02_k_(line_coord|line_line)',
+        'C02.V.value_in_between': r'^c02_k_(line_coord|ring_pos)',
+        'C02.V.value_in_range': r'^c02_k_(line_coord|ring_pos)',
+        'C02.V.rect_position': r'^c02_k_rect_coord',
+        'C02.V.coord_position': r'^c02_k_line_coord',
+    },
+    'trusted': ['assumed contract of the Kernel trait: orient2d returns the exact sign (robust::orient2d for floats; default body verified for integers in C03)',
+                'Vec-returning twin of LineString::lines() (element i = Line{start: s[i], end: s[i+1]})'],
+    'undecided_clauses': [
+        'pairs of two extended geometries that are decided through relate (inherit the limits of C01)',
+        'Contains/Within impls other than those listed in the evidence',
+    ],
+}
+
+PROPS['C13'] = {
+    'title': 'Affine transforms obey matrix algebra and commute with the algorithms',
+    'level': 'proof',
+    'verus': ['c13_affine'],
+    'kani': [
+        ('geo', 'c13.rs', r'^c13_k_(inverse_none_iff_singular|inverse_f64_none_iff_singular|builders)$', 'complete', 'quick'),
+        ('geo', 'c13.rs', r'^c13_k_(inverse_roundtrip|compose_many|inverse_f64_turn|inverse_f64_scale2)', 'bounded', 'quick'),
+    ],
+    'twins': {
+        'C13.V.compose': r'^c13_k_(compose_many|builders)',
+        'C13.V.apply': r'^c13_k_(compose_many|builders)',
+        'C13.V.scale': r'^c13_k_builders',
+        'C13.V.translate': r'^c13_k_builders',
+        'C13.V.identity': r'^c13_k_builders',
+        'C13.V.new': r'^c13_k_builders',
+    },
+    'trusted': ['machine arithmetic treated as mathematical in the Verus unit (exact ring scalar): no overflow / no rounding',
+                'sin_cos / tan / to_radians uninterpreted'],
+    'undecided_clauses': [
+        'commutation of every predicate and measure of the crate with exact similarity maps (only stated as lemmas over the spec functions of C02/C05 where those functions are proved equal to their specs)',
+        'skew (uses abs and a float literal threshold), Rotate/Scale/Skew/Translate trait layer origins (centroid / bounding-box centre)',
+        'inverse for general float matrices (rounding); only None <=> singular on the lattice and exact cases',
+    ],
+}
+
 NOT_APPLICABLE = {
     'C16': 'every clause is an identity between compositions of sin/cos/atan2/asin/sqrt/tan/ln in f64 (or calls into geographiclib-rs); Verus leaves float arithmetic uninterpreted and CBMC models libm as nondeterministic, so no contract stronger than "returns an f64" is provable',
     'C20': '2-safety hyper-property over runs, thread-pool sizes and hash seeds; Kani has no threads and compiles RandomState/rayon away, Verus cannot parse the rayon/hashbrown code; no contract within reach can express it',
